@@ -33,7 +33,7 @@ def _init_worker():
     assert os.path.realpath(staircase.__file__).startswith(os.path.realpath(REPO)), staircase.__file__
 
 
-PRECOND_Q = {"var", "median", "mode", "ecdf", "percentile", "fractile", "hist", "value_sums", "agg", "describe"}
+PRECOND_Q = {"integral", "mean", "var", "median", "mode", "ecdf", "percentile", "fractile", "hist", "value_sums", "agg", "describe"}
 
 
 class _Timeout(Exception):
